@@ -28,6 +28,7 @@ LEMMAS = {}
 UNVERIFIED = {"C02": [
     "rpds::Vector is stood in for by Vec (only len() and get() are used); lengths are assumed to fit in i64",
     "argument-index slices: the catch-all arm of `match receiver_value.as_ref()` in a built-in method arm is taken to be unreachable (eval_method_call looks the method up under the receiver's own runtime type name, so DictItems is entered only with a Dict, and so on); an index that is wrong only on that arm is not reported",
+    "argument-index slices: three explicit panic sites are not obligations: `.lock().expect(..)` on the output buffers (mutex poisoning), `duration_since(UNIX_EPOCH).unwrap()` (clock before 1970), and List::get's `.unwrap()` (proved separately as list_get_arm); every other unreachable!/panic!/todo!/unimplemented!/assert!/unwrap()/expect() inside a built-in arm is an obligation that must be dead under nondeterministic branch conditions",
     "argument-index slices (argidx_*): per arm of the two built-in dispatch functions, only `check_arity(.., N, ..)?` and the literal indexes `arg_values[k]` / `arg_positions[k]` are kept (control flow with nondeterministic conditions); computed indexes are not covered",
     "the bodies of the other built-in arms: string built-ins (String::substring's skip/take arithmetic), file and shell built-ins",
 ]}
@@ -59,6 +60,10 @@ pub fn nondet() -> (r: bool) { unimplemented!() }
 pub fn nondet_u8() -> (r: u8) { unimplemented!() }
 /// `arg_values[k]` / `arg_positions[k]` with n arguments: panics unless k < n
 pub fn idx(n: usize, k: usize) requires k < n { }
+/// an explicit panic (unreachable!, panic!, unwrap(), ..) kept by the slice: must not be reached
+pub fn panic_site() requires false { }
+/// a listed panic site that is not an obligation (see UNVERIFIED)
+pub fn assumed_not_to_panic() { }
 """
 
 EXTREMES = ["0", "1", "-1", "2", "3", "4", "5", "-4", "-5", "9223372036854775807", "-9223372036854775807 - 1"]
@@ -83,12 +88,25 @@ BOUNDED = [
 ]
 
 
+# explicit panic sites of the built-in arms that are not obligations of the slices (each is listed in UNVERIFIED)
+ALLOWED_PANIC_SITES = [
+    r"\.lock\(\)\s*\.expect\(",                                   # mutex poisoning: the interpreter thread is the only writer
+    r"duration_since\(\s*std::time::UNIX_EPOCH\s*\)\s*\.unwrap\(\)",   # the system clock is after 1970
+    r"items\s*\.get\(\*i as usize\)\s*\.unwrap\(\)",                 # proved in list_get_arm (this unit)
+]
+
+
 class ArgIdxSlicer(Slicer):
     """per-arm slice: `check_arity(.., N, ..)?` (afterwards exactly N arguments) and every literal index
     `arg_values[k]` / `arg_positions[k]`; everything else is dropped"""
 
     def __init__(self, src):
-        Slicer.__init__(self, src, r"check_arity\s*\((?P<args>[^;]*?)\)\s*\?|\barg_(?:values|positions)\[(?P<k>\d+)\]", flag_rx=r"\bno_such_flag_zz\b")
+        Slicer.__init__(self, src, r"check_arity\s*\((?P<args>[^;]*?)\)\s*\?|\barg_(?:values|positions)\[(?P<k>\d+)\]"
+                        r"|(?P<allowed>" + "|".join(ALLOWED_PANIC_SITES) + r")"
+                        r"|(?P<panic>\b(?:unreachable|panic|todo|unimplemented|assert|assert_eq|assert_ne)!\s*[(\[{]|\.unwrap\(\)|\.expect\()",
+                        flag_rx=r"\bno_such_flag_zz\b")
+        self.n_allowed = 0
+        self.n_panic = 0
         self.n_arity = 0
         self.n_dropped = 0
 
@@ -104,6 +122,12 @@ class ArgIdxSlicer(Slicer):
     def render_effect(self, m):
         if m.group("k") is not None:
             return "idx(n, %s);" % m.group("k")
+        if m.group("allowed") is not None:
+            self.n_allowed += 1
+            return "assumed_not_to_panic();"
+        if m.group("panic") is not None:
+            self.n_panic += 1
+            return "panic_site();"
         parts = rw._split_args(m.group("args"))
         self.n_arity += 1
         if len(parts) >= 4 and re.fullmatch(r"\d+", parts[3].strip()):
